@@ -194,7 +194,9 @@ def run_tlc(ctx, module, cfg=None, workers=None, env=None, timeout=600, extra=()
     cmd += list(extra)
     cmd.append(module + ".tla")
     e = dict(os.environ)
-    jopts = "-Xss64m"
+    jtmp = os.path.join(ctx.wd, "jtmp")       # TLC leaves an empty tlc-* directory per run in java.io.tmpdir
+    os.makedirs(jtmp, exist_ok=True)
+    jopts = "-Xss64m -Djava.io.tmpdir=" + jtmp
     if java_opts:
         jopts += " " + java_opts
     e["JAVA_TOOL_OPTIONS"] = (e.get("JAVA_TOOL_OPTIONS", "") + " " + jopts).strip()
